@@ -17,6 +17,8 @@ package grandpa
 //   otherset     correctly signed, but for set+1
 //   prevote      correctly signed, but as a prevote
 //   wrongnum     vote carries number+1 (and is correctly signed over that)
+//   sig-of-other-block  names block X, carries the signer's valid precommit signature for another block
+//                (together with that valid entry: the same signature bytes listed twice with different votes)
 // blocks A, A1, B, plus G (ancestor of every target) and U (unknown hash) for valid entries.
 // Exact duplicates and equivocations arise from repeating / varying entries of one authority.
 // Authorities are symmetric: sequences are enumerated up to renaming (a new authority slot is
@@ -72,9 +74,18 @@ const (
 	c18OtherSet
 	c18PrevoteStage
 	c18WrongNum
+	c18SigOfOtherBlock // the entry names block X but carries the signer's valid precommit signature for another block
 )
 
-var c18KindName = []string{"valid", "badsig", "otherround", "otherset", "prevote", "wrongnum"}
+var c18KindName = []string{"valid", "badsig", "otherround", "otherset", "prevote", "wrongnum", "sig-of-other-block"}
+
+// c18OtherBlock: the block whose (valid) signature a sig-of-other-block entry for blk carries.
+func c18OtherBlock(blk int) int {
+	if blk == c18B {
+		return c18A
+	}
+	return c18B
+}
 
 // commit-level deviations (space S3)
 const (
@@ -178,6 +189,9 @@ func c18Build(e *c18Elem) *CommitMessage {
 			v.Number++
 		}
 		sig := c21Sign(key, stage, v, round, set)
+		if en.Kind == c18SigOfOtherBlock {
+			sig = c21Sign(key, stage, tree.vote(c18OtherBlock(en.Blk)), round, set)
+		}
 		if en.Kind == c18BadSig {
 			sig[0] ^= 0x01
 		}
@@ -213,6 +227,9 @@ func c18Oracle(e *c18Elem) c18Counts {
 		// signature identity: two entries carry the same signature bytes iff they sign the same thing
 		// the same way (ed25519 signing is deterministic and cached)
 		sigID := fmt.Sprintf("%d/%d", en.Kind, en.Blk)
+		if en.Kind == c18SigOfOtherBlock {
+			sigID = fmt.Sprintf("%d/%d", c18Valid, c18OtherBlock(en.Blk)) // the very bytes of that valid entry
+		}
 		if f, ok := firstSig[en.Slot]; ok {
 			if f != sigID {
 				sigEqv[en.Slot] = true
@@ -382,8 +399,8 @@ func c18NormalEntries(slot int) []c18Entry {
 // c18DeviantEntries: every other entry of the alphabet for an authority slot.
 func c18DeviantEntries(slot int, blocks []int) []c18Entry {
 	var out []c18Entry
-	kinds := verifmc.Pick([]int{c18BadSig, c18OtherRound, c18OtherSet, c18WrongNum},
-		[]int{c18BadSig, c18OtherRound, c18OtherSet, c18PrevoteStage, c18WrongNum})
+	kinds := verifmc.Pick([]int{c18BadSig, c18OtherRound, c18OtherSet, c18WrongNum, c18SigOfOtherBlock},
+		[]int{c18BadSig, c18OtherRound, c18OtherSet, c18PrevoteStage, c18WrongNum, c18SigOfOtherBlock})
 	for _, k := range kinds {
 		for _, b := range blocks {
 			out = append(out, c18Entry{slot, k, b})
@@ -542,7 +559,7 @@ func c18Elements() (elems []c18Packed, rule string) {
 	rule = fmt.Sprintf("commits (target in {A,A1,B} of the tree G->A->A1, G->B; ordered entry list) delivered to the real handleCommitMessage of a fresh real Service with n fixed authorities. "+
 		"S0: n=1..7, every assignment authority -> {absent, valid precommit for A, A1, B}. "+
 		"S1: every sequence (up to authority renaming) of valid precommits for A/A1/B incl. repetitions and equivocations, (n,max length) in %v. "+
-		"S2: every such sequence in which 1..dmax entries are deviant (badsig/otherround/otherset/wrong-number (thorough: also prevote-stage) for blocks %v, valid for the ancestor G, valid for an unknown block, valid by a non-authority), (n,max length,dmax) in %v. "+
+		"S2: every such sequence in which 1..dmax entries are deviant (badsig/otherround/otherset/wrong-number/valid-signature-of-another-block (thorough: also prevote-stage) for blocks %v, valid for the ancestor G, valid for an unknown block, valid by a non-authority), (n,max length,dmax) in %v. "+
 		"S3: n=1..4, honest full commit and the commit one entry short, with each message-level deviation %v. "+
 		"Non-trivial = distinct (n, target class, per-authority behaviour multiset, verdict) classes.",
 		s1, func() []string {
